@@ -50,3 +50,105 @@ def provider(stream, state, requestor=False):
     return dul
 
 
+
+
+def reactor_check():
+    """native: the REAL DULServiceProvider.run_reactor loop with scripted sources (what waits per iteration: a primitive, data
+    from the peer, nothing; whether ARTIM has run out; what is in the event queue) - checks what the loop does per iteration:
+    ARTIM -> Evt18, primitive before socket, idle timer restarted exactly on data, one action per iteration from the queue,
+    and that an empty event queue does not block it.  Returns a dict describing the first disagreement, or None."""
+    import threading
+
+    for script in ([("prim", False), ("data", False), ("none", False), ("data", True), ("none", False), ("prim", True)],
+                   [("none", False)] * 3 + [("data", False)] * 2,
+                   [("none", True), ("data", False)]):
+        log = []
+        dul = DULServiceProvider.__new__(DULServiceProvider)
+        step = {"i": -1, "asked": False}
+
+        class Artim:
+            @property
+            def expired(self_):
+                # asked at the top of each iteration: this starts scripted iteration i
+                step["i"] += 1
+                if step["i"] >= len(script):
+                    dul._kill_thread = True           # the loop finishes this (unscripted) iteration and leaves
+                    log.append(("end-of-script",))
+                    return False
+                log.append(("iteration", step["i"]))
+                return script[step["i"]][1]
+        dul.artim_timer = Artim()
+        dul._idle_timer = types.SimpleNamespace(start=lambda: log.append(("idle.start",)), restart=lambda: log.append(("idle.restart",)),
+                                                stop=lambda: log.append(("idle.stop",)))
+        ready = threading.Event()
+        dul._assoc = types.SimpleNamespace(_dul_ready=ready, is_aborted=False, is_established=True, _kill=False)
+        dul.socket = types.SimpleNamespace(send=lambda b: log.append(("socket.send",)))
+        dul.event_queue = queue.Queue()
+        dul._kill_thread = False
+        dul._run_loop_delay = 0.0
+
+        def cur():
+            return script[step["i"]][0] if 0 <= step["i"] < len(script) else "none"
+
+        def prp():
+            log.append(("process_primitive",))
+            if cur() == "prim":
+                dul.event_queue.put(f"EvtP{step['i']}")
+                return True
+            return False
+
+        def ite():
+            log.append(("transport_event",))
+            if cur() == "data":
+                dul.event_queue.put(f"EvtD{step['i']}")
+                return True
+            return False
+        dul._process_recv_primitive = prp
+        dul._is_transport_event = ite
+        dul.state_machine = types.SimpleNamespace(do_action=lambda ev: log.append(("do_action", ev)))
+        orig_put = dul.event_queue.put
+
+        def put(ev, *a, **k):
+            if ev == "Evt18" or not str(ev).startswith("Evt"):
+                log.append(("loop.put", ev))
+            return orig_put(ev, *a, **k)
+        dul.event_queue.put = put
+        t = threading.Thread(target=DULServiceProvider.run_reactor, args=(dul,), daemon=True)
+        t.start()
+        t.join(10)
+        desc = {"per iteration (waiting source, ARTIM run out)": script}
+        if t.is_alive():
+            dul._kill_thread = True
+            return dict(input=desc, observed={"the reactor is still inside iteration": step["i"], "log": log[-8:]},
+                        expected="the loop never blocks (an empty event queue is skipped)")
+        # split the log per iteration
+        its, pre = [], []
+        for e in log:
+            if e[0] == "end-of-script":
+                break
+            if e[0] == "iteration":
+                its.append([])
+            elif its:
+                its[-1].append(e)
+            else:
+                pre.append(e)
+        if [e for e in pre if e[0].startswith("idle")] != [("idle.start",)]:
+            return dict(input=desc, observed={"before the first iteration": pre}, expected="the idle timer is started once")
+        pending = []
+        for i, (evs, (src, artim)) in enumerate(zip(its, script)):
+            names = [e[0] for e in evs]
+            puts = [e[1] for e in evs if e[0] == "loop.put"]
+            want_puts = ["Evt18"] if artim else []
+            restarts = names.count("idle.restart") + names.count("idle.start")
+            acts = [e[1] for e in evs if e[0] == "do_action"]
+            pending += want_puts + ([f"EvtP{i}"] if src == "prim" else []) + ([f"EvtD{i}"] if src == "data" else [])
+            want_act = pending[:1]
+            pending = pending[1:]
+            ok_order = names.count("process_primitive") == 1 and names.count("transport_event") == (0 if src == "prim" else 1)
+            if puts != want_puts or restarts != (1 if src == "data" else 0) or acts != want_act or not ok_order or "idle.stop" in names:
+                return dict(input=dict(desc, iteration=i), observed={"events the loop queued itself": puts, "idle timer restarts": restarts,
+                                                                     "events handed to the state machine": acts, "calls": names},
+                            expected={"events the loop queued itself": want_puts, "idle timer restarts": 1 if src == "data" else 0,
+                                      "events handed to the state machine": want_act,
+                                      "sources": "the primitive queue once, the socket only when no primitive was waiting"})
+    return None
